@@ -49,6 +49,7 @@ type skOpts struct {
 	fixedAtCur bool // fixed discount / charge / advance amounts at the currency's precision (C03 assumption)
 	rich       bool // all optional parts by choice (otherwise a smaller family)
 	include    bool // allow tax-included prices
+	qexp       bool // quantities with 0 or 2 decimals also in the quick tier
 }
 
 var (
@@ -72,7 +73,7 @@ func skLine(name string, o skOpts, curExp uint32, first bool) *Line {
 		pexp = curExp + 2
 	}
 	qexp := uint32(0)
-	if vrt.Thorough() {
+	if vrt.Thorough() || o.qexp {
 		qexp = uint32(vrt.Choice(name+".qexp", 2)) * 2 // 0 or 2 decimals
 	}
 	pr := skAmt(name+".price", pexp)
